@@ -18,6 +18,35 @@ from .interp_expr import BuiltinMethod, Frame
 _MISSING = object()
 
 
+def light_simplify(t):
+    """accessor applied to its own constructor -> the field (no other rewriting: z3's full simplifier
+    introduces internal sequence symbols)"""
+    try:
+        while z3.is_app(t) and t.decl().kind() == z3.Z3_OP_DT_ACCESSOR:
+            a = t.arg(0)
+            a = light_simplify(a)
+            if z3.is_app(a) and a.decl().kind() == z3.Z3_OP_DT_CONSTRUCTOR:
+                srt = a.sort()
+                done = False
+                for ci in range(srt.num_constructors()):
+                    if srt.constructor(ci).eq(a.decl()):
+                        for j in range(srt.constructor(ci).arity()):
+                            if srt.accessor(ci, j).eq(t.decl()):
+                                t = a.arg(j)
+                                done = True
+                                break
+                        break
+                if not done:
+                    return t
+            else:
+                if not a.eq(t.arg(0)):
+                    t = t.decl()(a)
+                return t
+        return t
+    except Exception:
+        return t
+
+
 def static_attr(cls, name):
     try:
         return inspect.getattr_static(cls, name)
@@ -45,13 +74,12 @@ class AttrMixin:
         """contract governing attribute `name` looked up on class cls (implementation-first, then virtual)"""
         impl = None
         for klass in cls.__mro__:
-            if name in vars(klass):
-                if impl is None:
-                    impl = klass
-                qual = f'{klass.__module__}.{klass.__qualname__}.{name}'
-                c = CONTRACTS.get(qual)
-                if c is not None and (klass is impl or c.virtual):
-                    return c
+            if impl is None and name in vars(klass):
+                impl = klass
+            qual = f'{klass.__module__}.{klass.__qualname__}.{name}'
+            c = CONTRACTS.get(qual)
+            if c is not None and (klass is impl or c.virtual):
+                return c
         return None
 
     def class_set(self, obj: SV):
@@ -240,7 +268,7 @@ class AttrMixin:
                 t = self.ct.common_field(obj.ty.sort, name, obj.term)
             else:
                 t = self.ct.field(grp[0], name, obj.term)
-            t = z3.simplify(t)
+            t = light_simplify(t)
             oid = ('path', name, str(obj.oid) if obj.oid is not None else obj.term.sexpr()[:200])
             return SV(t, f.ty, oid=oid, fresh=False)
         if kind == 'prop':
